@@ -31,7 +31,7 @@ Proof.
   - pose proof (starts_with_len _ _ Hs) as Hl.
     change (x :: t ++ b) with ((x :: t) ++ b). rewrite starts_with_app_long, Hs by exact Hl. exact H.
   - destruct (find_term t) as [j|] eqn:Hj; [|discriminate].
-    destruct (find_term_bound _ _ Hj) as (_ & Hl).
+    destruct (find_term_bound _ _ Hj) as (Hj0 & Hl).
     change (x :: t ++ b) with ((x :: t) ++ b).
     rewrite starts_with_app_long by (rewrite zlen_cons; change (zlen TERM) with 4; lia).
     rewrite Hs, (IH j eq_refl). exact H.
@@ -131,6 +131,8 @@ Proof.
     rewrite Hf. rewrite andb_false_r. change (2 =? 2) with true. cbv iota.
     set (m0 := mkMsg _ _ _ (m_rx m ++ bs) _ _ _ _ _ _ _ _ _ _).
     destruct (IH m0 ps' err k Hst Hcap Hf ltac:(cbn [m0 m_rx]; rewrite Hall; exact Hk) Hroom) as (ret & m' & ps'' & E' & H').
-    { assert (total_len ps' = total_len ps - rc) by (unfold total_len; rewrite Hps', zlen_zdrop; unfold total_len in *; lia). lia. }
+    { assert (Hle : rc <= total_len ps).
+      { rewrite <- Hbl at 1. rewrite Hbs. unfold ztake, zlen, total_len. rewrite firstn_length. lia. }
+      assert (total_len ps' = total_len ps - rc) by (unfold total_len; rewrite Hps', zlen_zdrop; unfold total_len in *; lia). lia. }
     exists ret, m', ps''. split; [exact E'|exact H'].
 Qed.
